@@ -41,7 +41,7 @@ inductive Err where
   | noRow | noFeature                               -- visit `_clean_dataframe`
   | overwrite                                       -- `IndividualData.add_observations`
   | eventTime | eventCode | eventUnique | eventNone | eventCount | eventBefore   -- event / joint readers
-  | covMissing | covInteger | covUnique | covConstant                           -- covariate reader
+  | covNone | covMissing | covInteger | covUnique | covConstant                 -- covariate reader
 deriving DecidableEq, Repr
 
 abbrev Obs := List (Option Rat)
@@ -327,15 +327,35 @@ def evCell (r : EvRow) : Except Err Event :=
     | .nan => .error .eventCode
     | .fin q => if q.den != 1 || q.num < 0 then .error .eventCode else .ok ⟨r.id, t, q.num.toNat⟩
 
-def evCells : List EvRow → Except Err (List Event)
+/-- row by row conversion (cannot fail once the two column-wise checks of `evCells` have passed) -/
+def evConv : List EvRow → Except Err (List Event)
   | [] => .ok []
   | r :: rs =>
       match evCell r with
       | .error e => .error e
       | .ok ev =>
-          match evCells rs with
+          match evConv rs with
           | .error e => .error e
           | .ok l => .ok (ev :: l)
+
+/-- one entry of `(df_event[EVENT_TIME] > 0)` (`nan > 0` is False; ±inf has been refused before) -/
+def evTimeOk (r : EvRow) : Bool :=
+  match r.time with
+  | .fin t => decide (0 < t)
+  | _ => false
+
+/-- one entry of `not isna`, `not < 0`, `== astype(int)` on `EVENT_BOOL` -/
+def evCodeOk (r : EvRow) : Bool :=
+  match r.code with
+  | .fin q => q.den == 1 && decide (0 ≤ q.num)
+  | _ => false
+
+/-- the cell checks in the order of the code: the whole `EVENT_TIME` column first (`Events must be above 0`),
+    then the whole `EVENT_BOOL` column (`Events must be stored in type int`), then `astype(int)`. -/
+def evCells (rows : List EvRow) : Except Err (List Event) :=
+  if !rows.all evTimeOk then .error .eventTime
+  else if !rows.all evCodeOk then .error .eventCode
+  else evConv rows
 
 /-- `groupby("ID").nunique().eq(1)` for both columns -/
 def evConsistent (l : List Event) : Bool :=
@@ -450,14 +470,27 @@ def covCells : List (Cell Rat) → Except Err (List Int)
         | .error e => .error e
         | .ok l => .ok (z :: l)
 
-def covRows : List CRow → Except Err (List (Nat × List Int))
+/-- row by row conversion (cannot fail once the two column-wise checks of `covRows` have passed) -/
+def covConv : List CRow → Except Err (List (Nat × List Int))
   | [] => .ok []
   | r :: rs =>
       match covCells r.covs with
       | .error e => .error e
-      | .ok z => match covRows rs with
+      | .ok z => match covConv rs with
         | .error e => .error e
         | .ok l => .ok ((r.row.id, z) :: l)
+
+/-- one entry of `np.array_equal(col, col.astype(int))` (missing cells are looked at by the check before) -/
+def covIntOk : Cell Rat → Bool
+  | .fin q => q.den == 1
+  | _ => true
+
+/-- the cell checks in the order of the code: first no covariate column may hold a NaN, then every
+    covariate column must be integer valued, then `astype(int)`. -/
+def covRows (rows : List CRow) : Except Err (List (Nat × List Int)) :=
+  if rows.any (fun r => r.covs.any (fun c => c == .nan)) then .error .covMissing
+  else if rows.any (fun r => r.covs.any (fun c => !covIntOk c)) then .error .covInteger
+  else covConv rows
 
 def covConsistent (l : List (Nat × List Int)) : Bool :=
   l.all (fun a => l.all (fun b => a.1 != b.1 || a.2 == b.2))
@@ -470,6 +503,8 @@ def covVaries (nCov : Nat) (l : List (Nat × List Int)) : Bool :=
   (List.range nCov).all (fun k => l.any (fun a => l.any (fun b => a.2[k]? != b.2[k]?)))
 
 def ingestCov (dim nCov : Nat) (rows : List CRow) : Except Err (Canon × List (Nat × List Int)) :=
+  -- `CovariateDataframeDataReader.__init__`: `if not covariate_names: raise`
+  if nCov < 1 then .error .covNone else
   if rowKeyDup (rows.map (fun r => r.row)) then .error .duplicate else
   -- `_clean_numeric_data` refuses ±inf anywhere before rows are dropped
   if rows.any (fun r => r.covs.any (fun c => c == .inf)) then .error .valueInf else
